@@ -1,7 +1,8 @@
 (* C15 classifier: 0 Agree | 1 ModelMismatch | 2 PropertyFail | 100+k known finding k | 9 harness error.
    A case is one import run: the configured precisions, the number of statement records, the
    transactions to_double_entry built (with the display width of each posting's account), the
-   text ImportCmd printed for them, and what parse_ledger read back from that text.
+   text ImportCmd printed for them, and what parse_ledger read back from that text; for generated
+   CSV statements also the figures the generator meant each money cell to say.
    spec_holds is the property on the observation alone; the model (Model/TxnText.v printer and
    reader) is compared second. *)
 From Coq Require Import List NArith ZArith Bool.
@@ -23,10 +24,37 @@ Definition TX (d : date) (e : option date) (c : clear) (code : option str) (paye
               (m : list metadata) (ps : list sposting) : stxn :=
   {| tr_date := d; tr_edate := e; tr_clear := c; tr_code := code; tr_payee := payee; tr_meta := m; tr_posts := ps |}.
 
+(* what one statement record says, in the statement's own terms (the generator's figure, known
+   before the cell text was written): the signed movement of the configured account, the stated
+   balance, the fee *)
+Record intent := { in_amount : option pdec; in_balance : option pdec; in_charge : option pdec }.
+Definition INT (a b c : option pdec) : intent := {| in_amount := a; in_balance := b; in_charge := c |}.
+
 Inductive case :=
-| CRun (prec : precisions) (records : N) (trees : list stxn) (widths : list (list N))
-       (text : str) (parsed : rres)
+| CRun (prec : precisions) (acct : str) (intended : list intent) (records : N) (trees : list stxn)
+       (widths : list (list N)) (text : str) (parsed : rres)
 | CPanic.                                  (* the importer itself panicked *)
+
+(* ---- "reads back as intended": the figures of the statement are the figures read back ---- *)
+Definition s_commissions : str :=
+  [69;120;112;101;110;115;101;115;58;67;111;109;109;105;115;115;105;111;110;115].  (* Expenses:Commissions *)
+Definition has_post (acct : str) (f : sposting -> bool) (t : stxn) : bool :=
+  existsb (fun p => str_eqb (sp_account p) acct && f p) (tr_posts t).
+Definition amount_is (v : pdec) (p : sposting) : bool :=
+  match sp_amount p with Some pa => same_value v (sa_value (pa_amount pa)) | None => false end.
+Definition balance_is (v : pdec) (p : sposting) : bool :=
+  match sp_balance p with Some b => same_value v (sa_value b) | None => false end.
+Definition intent_ok (acct : str) (i : intent) (t : stxn) : bool :=
+  match in_amount i with Some v => has_post acct (amount_is v) t | None => true end
+  && match in_balance i with Some v => has_post acct (balance_is v) t | None => true end
+  && match in_charge i with Some v => has_post s_commissions (amount_is v) t | None => true end.
+(* no stated intents: nothing to check; otherwise one per transaction read back, in order *)
+Fixpoint intents_ok (acct : str) (is : list intent) (items : list item) : bool :=
+  match is, items with
+  | [], _ => true
+  | i :: r, ITxn u :: s => intent_ok acct i u && intents_ok acct r s
+  | _ :: _, _ => false
+  end.
 
 (* ---- the property on the observation ---- *)
 Fixpoint all_same (p : precisions) (ts : list stxn) (items : list item) : bool :=
@@ -38,8 +66,8 @@ Fixpoint all_same (p : precisions) (ts : list stxn) (items : list item) : bool :
 
 Definition spec_holds (c : case) : bool :=
   match c with
-  | CRun p records trees _ _ (RItems items false) =>
-      (N.of_nat (length trees) =? records) && all_same p trees items
+  | CRun p acct intended records trees _ _ (RItems items false) =>
+      (N.of_nat (length trees) =? records) && all_same p trees items && intents_ok acct intended items
   | _ => false
   end.
 
@@ -82,7 +110,7 @@ Definition rres_eqb (a b : rres) : bool :=
 
 Definition model_agrees (c : case) : bool :=
   match c with
-  | CRun p _ trees widths text parsed =>
+  | CRun p _ _ _ trees widths text parsed =>
       str_eqb (print_all p (map (map N.to_nat) widths) trees) text && rres_eqb (read_all text) parsed
   | CPanic => false
   end.
@@ -91,10 +119,11 @@ Definition classify (c : case) : N :=
   if spec_holds c then (if model_agrees c then 0 else 1)
   else
     match c with
-    | CRun p _ trees _ _ (RItems items _) =>
+    | CRun p _ _ _ trees _ _ (RItems items _) =>
         match first_bad p trees items with
         | Some t => match known_class t with Some k => 100 + k | None => 2 end
-        | None => 2                         (* extra entries, or the wrong number of transactions *)
+        | None => 2                         (* extra entries, the wrong number of transactions, or a
+                                               figure that is not the statement's *)
         end
     | _ => 2
     end.
